@@ -51,7 +51,7 @@ const encryptHeadroom = 8 << 10
 func TestMain(m *testing.M) {
 	evid.Main(m, prop, "exploration",
 		"one evaluation = one OFFER (ref text, bytes, source reader, ingest path, backend). A rapid case builds one backend "+
-			"(memory|localdisk|diskpacked[maxFileSize]|blobpacked|encrypt|replica|verif, children drawn, through blobserver.CreateStorage), "+
+			"(memory|localdisk|diskpacked[maxFileSize]|blobpacked|encrypt|replica|namespace|verif, children drawn, through blobserver.CreateStorage), "+
 			"a pool of 2-5 valid blobs (0 B..4 KiB; sha1/sha224/sha256) some of which are stored beforehand, then 1-5 requests over the paths "+
 			"blobserver.Receive | direct ReceiveBlob (self-verifying stores memory/encrypt only) | HTTP PUT with Content-Length | HTTP PUT chunked | HTTP multipart batch upload (1-4 parts, good and bad mixed) "+
 			"against a real httptest server running handlers.CreatePutUploadHandler/CreateBatchUploadHandler. Each offer = base blob x mutation "+
@@ -212,24 +212,31 @@ func waitServerIdle() bool {
 // ---------------------------------------------------------------------------
 // hub observers
 
-type observer struct {
+type hookRec struct {
 	mu     sync.Mutex
 	hooked []blob.SizedRef
-	ch     chan blob.Ref
+}
+
+type observer struct {
+	*hookRec
+	hub blobserver.BlobHub
+	ch  chan blob.Ref
 }
 
 func observe(dst any) *observer {
-	o := &observer{ch: make(chan blob.Ref, 1024)}
-	hub := blobserver.GetHub(dst)
-	hub.AddReceiveHook(func(sb blob.SizedRef) error {
-		o.mu.Lock()
-		o.hooked = append(o.hooked, sb)
-		o.mu.Unlock()
+	o := &observer{hookRec: &hookRec{}, ch: make(chan blob.Ref, 64), hub: blobserver.GetHub(dst)}
+	rec := o.hookRec // the hub keeps the hook (and what it references) for the life of the process
+	o.hub.AddReceiveHook(func(sb blob.SizedRef) error {
+		rec.mu.Lock()
+		rec.hooked = append(rec.hooked, sb)
+		rec.mu.Unlock()
 		return nil
 	})
-	hub.RegisterListener(o.ch)
+	o.hub.RegisterListener(o.ch)
 	return o
 }
+
+func (o *observer) release() { o.hub.UnregisterListener(o.ch) }
 
 // take returns and clears the hook calls; it also collects as many listener
 // messages as there were hook calls (they are sent asynchronously) and whatever
@@ -999,6 +1006,8 @@ func newWorld(t *rapid.T, tree *vcompose.Node, pool []vgen.Blob) (*world, func()
 	}
 	return w, func() {
 		worlds.Delete(w.id)
+		w.obsSto.release()
+		w.obsFr.release()
 		// blobserver's hub registry keeps every storage it was asked about alive for the life of
 		// the process: drop what they hold
 		var refs []blob.Ref
@@ -1033,7 +1042,7 @@ func (w *world) final() {
 	w.checkRawNames(w.rawState())
 }
 
-var rootTypes = []string{"memory", "localdisk", "diskpacked", "blobpacked", "encrypt", "replica", "verif"}
+var rootTypes = []string{"memory", "localdisk", "diskpacked", "blobpacked", "encrypt", "replica", "verif", "namespace"}
 
 func rootOf(desc string) string {
 	if i := strings.IndexAny(desc, "[("); i >= 0 {
@@ -1116,7 +1125,7 @@ func runCase(t *rapid.T) {
 }
 
 func TestOnlyMatchingBytesAccepted(t *testing.T) {
-	evid.Check(t, 1500, 12000, runCase)
+	evid.Check(t, 1500, 8000, runCase)
 }
 
 // ---------------------------------------------------------------------------
